@@ -11,6 +11,7 @@ import (
 	"time"
 
 	sdk "github.com/cosmos/cosmos-sdk/types"
+	nttypes "github.com/jackalLabs/canine-chain/v4/x/notifications/types"
 	sttypes "github.com/jackalLabs/canine-chain/v4/x/storage/types"
 )
 
@@ -66,6 +67,32 @@ func runProbe(name string) {
 			fmt.Printf("%-40s ok=%v net cost to buyer %s, stakers pool +%s %s\n", who.label, r.OK, b0.Sub(bal(U[0])), bal(fee).Sub(f0), r.Err)
 			c.NextBlock(40 * 24 * time.Hour) // let the plan lapse so that every purchase is a fresh one
 		}
+	case "block-bypass-spelling":
+		// C18: the block list is consulted with the raw signer string
+		c := NewChain(3, []string{"ujkl"}, nil)
+		U := c.Users
+		c.Begin(6 * time.Second)
+		rcpt, spammer := U[0].String(), U[1].String()
+		inbox := func() int {
+			n := 0
+			for _, x := range c.A.NotificationsKeeper.GetAllNotifications(c.Ctx()) {
+				if x.To == rcpt {
+					n++
+				}
+			}
+			return n
+		}
+		fmt.Println("recipient blocks the sender:", c.Deliver(&nttypes.MsgBlockSenders{Creator: rcpt, ToBlock: []string{spammer}}).OK)
+		r1 := c.Deliver(&nttypes.MsgCreateNotification{Creator: spammer, To: rcpt, Contents: "{}"})
+		fmt.Println("blocked sender, canonical spelling: delivered =", r1.OK, " inbox size", inbox())
+		c.NextBlock(6 * time.Second)
+		r2 := c.Deliver(&nttypes.MsgCreateNotification{Creator: strings.ToUpper(spammer), To: rcpt, Contents: "{}"})
+		fmt.Println("blocked sender, upper-case spelling: delivered =", r2.OK, " inbox size", inbox())
+		// and a block signed under the upper-case spelling never matches the recipient's inbox address
+		c.NextBlock(6 * time.Second)
+		fmt.Println("user 2 blocks the sender, signing in upper case:", c.Deliver(&nttypes.MsgBlockSenders{Creator: strings.ToUpper(U[2].String()), ToBlock: []string{spammer}}).OK)
+		r3 := c.Deliver(&nttypes.MsgCreateNotification{Creator: spammer, To: U[2].String(), Contents: "{}"})
+		fmt.Println("sender blocked that way still delivers to user 2:", r3.OK)
 	default:
 		fmt.Println("unknown probe", name)
 	}
